@@ -27,7 +27,10 @@ CFG = dict(
          "(8) extra) x probe; per-envelope write faults on the teardown paths: exactly the RST_STREAM Write of the abandoned stream is refused (or "
          "blocks and fails at its own 30 s deadline), reads and later Writes work: cancel / deadline / abort on undecodable metadata x 0..3 unread x "
          "2..5 further envelopes for the dead stream (bodies, trailer) x probe, against a scripted peer and end to end (handler never learns, keeps "
-         "sending) x others; judged: client half against Model/Client.v, at the final quiescent point every call has returned, every unary "
+         "sending) x others; the trailer in the server writer's hands with the transport Write held up (server-side back-pressure) x cancel / deadline "
+         "reaching the server x release x probe; the reply of a unary call BEHIND 3..6 (10) unread responses of a stream whose caller cancels while the "
+         "client's Writes are blocked for good: after the virtual clock has passed the reset Write's 30 s bound (30.001 s / 31 s / 1 h) the call completes; "
+         "caller contexts of every kind (see C07); judged: client half against Model/Client.v, at the final quiescent point every call has returned, every unary "
          "call got its answer (or its context's error), no registry lock is held; a wedge (probe pending / watchdog) is a failing input",
     assumptions=["payloads are opaque tokens; wires FIFO and lossless",
                  "quiescence = testing/synctest durable blocking; a goroutine blocked on sync.Mutex is detected by the real-time watchdog (600 ms without progress)"])
